@@ -169,8 +169,55 @@ def check_inner(case):
     return {"nontrivial": inner, "classes": ["inner", shape], "sample": {"before": src, "after": text}}
 
 
+@st.composite
+def _strategy_session(draw, tier):
+    """a real session over one file whose new code needs the `external` and / or `HasRepr` import"""
+    kinds = draw(st.lists(st.sampled_from(["ext-create", "ext-fix", "opaque-create", "opaque-fix", "plain-fix",
+                                           "ext-keep", "opaque-create", "ext-create"]), min_size=2, max_size=4))
+    return {"kinds": kinds, "imported": draw(st.sampled_from([[], [], ["external"], ["HasRepr"]]))}
+
+
+def check_session(case):
+    """create,fix in a real pytest session (the imports are added at the end of the session), then the same
+    project with inline-snapshot disabled and without any flag: every test passes"""
+    import shutil
+
+    lines = ["from inline_snapshot import snapshot, outsource"] + [f"from inline_snapshot import {n}" for n in case["imported"]]
+    lines += ["from vf_prelude import *", "", ""]
+    for i, k in enumerate(case["kinds"]):
+        what = k.split("-")[0]
+        obs = {"ext": f"outsource('data {i}')", "opaque": f"[Opaque({i})]", "plain": f"[{i}]"}[what]
+        old = "" if k.endswith("create") or k.endswith("keep") else "[99]"
+        lines += [f"def test_{i}():", f"    assert {obs} == snapshot({old})", "", ""]
+    src = "\n".join(lines).rstrip("\n") + "\n"
+    d = drivers.make_project({"test_a.py": src})
+    try:
+        if any(k == "ext-keep" for k in case["kinds"]):
+            # an earlier session has outsourced a part already: the file holds external(...) before this one
+            only = [f"test_{i}" for i, k in enumerate(case["kinds"]) if k == "ext-keep"]
+            r = drivers.run_pytest(d, ["--inline-snapshot=create", "-k", " or ".join(only)])
+            if "INTERNALERROR" in r.stdout or r.returncode not in (0, 1):
+                raise Violation("session-broken", f"first session rc={r.returncode}\n{src}\n{r.stdout[-1500:]}")
+        r = drivers.run_pytest(d, ["--inline-snapshot=create,fix"])
+        if "INTERNALERROR" in r.stdout or r.returncode not in (0, 1):
+            raise Violation("session-broken", f"rc={r.returncode}\n{src}\n{r.stdout[-1500:]}")
+        text = r.files_after["test_a.py"].decode()
+        for flags in (["--inline-snapshot=disable"], []):
+            r2 = drivers.run_pytest(d, flags)
+            if r2.returncode != 0:
+                raise Violation("rewritten-session-fails",
+                                f"rerun {flags} rc={r2.returncode}\n--- before\n{src}\n--- after\n{text}\n{r2.stdout[-1500:]}")
+    finally:
+        shutil.rmtree(d, ignore_errors=True)
+    whats = {k.split("-")[0] for k in case["kinds"]}
+    return {"nontrivial": bool(whats & {"ext", "opaque"}), "classes": ["session:" + "+".join(sorted(whats))],
+            "sample": {"before": src, "after": text}}
+
+
 ARMS = [
     HypArm("inner", _strategy_inner, check_inner, budget={"quick": 300, "thorough": 10000}),
+    HypArm("real_session", _strategy_session, check_session, budget={"quick": 32, "thorough": 600}, shrink=False,
+           min_per_shard=2),
     HypArm("create_fix", _strategy, check, signature=signature,
            budget={"quick": 1500, "thorough": 100000}),
 ]
